@@ -36,7 +36,7 @@ fn reader_section(hl: &VerifHalfLock<Canary>) {
 }
 
 /// Readers that loop until the writer is done (for the chain scenario).
-fn build_chain(readers: usize, stores: usize) -> (Arc<VerifHalfLock<Canary>>, Vec<Body>, LocMap, u64) {
+fn build_chain(readers: usize, stores: usize, writers: usize) -> (Arc<VerifHalfLock<Canary>>, Vec<Body>, LocMap, u64) {
     let hl = Arc::new(VerifHalfLock::new(Canary { id: 1 }));
     let mut locs = LocMap::default();
     locs.add_halflock(hl.layout(), "");
@@ -54,13 +54,20 @@ fn build_chain(readers: usize, stores: usize) -> (Arc<VerifHalfLock<Canary>>, Ve
             }
         }));
     }
-    let hl2 = hl.clone();
-    bodies.push(Box::new(move || {
-        for k in 0..stores {
-            hl2.store(Canary { id: 2 + k as u64 });
-        }
-        stop.store(true, Ordering::SeqCst);
-    }));
+    let finished = Arc::new(std::sync::atomic::AtomicUsize::new(0));
+    for wi in 0..writers {
+        let hl2 = hl.clone();
+        let stop = stop.clone();
+        let finished = finished.clone();
+        bodies.push(Box::new(move || {
+            for k in 0..stores {
+                hl2.store(Canary { id: 2 + (wi * 100 + k) as u64 });
+            }
+            if finished.fetch_add(1, Ordering::SeqCst) + 1 == writers {
+                stop.store(true, Ordering::SeqCst);
+            }
+        }));
+    }
     (hl, bodies, locs, init_ptr)
 }
 
@@ -231,7 +238,7 @@ pub fn main(args: &Args) -> i32 {
             }
         }
         let (hl, bodies, locs, init_ptr) = if mode == "chain" {
-            build_chain(scn.readers.max(2), scn.stores)
+            build_chain(scn.readers.max(2), scn.stores, scn.writers.max(1))
         } else {
             build(&scn)
         };
@@ -266,7 +273,7 @@ pub fn main(args: &Args) -> i32 {
             let mut rp = Replay::new(codes.clone());
             sched::run(bodies, &mut rp, &cfg)
         } else if mode == "chain" {
-            let mut ch = sched::Chain::new(scn.readers.max(2));
+            let mut ch = sched::Chain::with_writers(scn.readers.max(2), scn.writers.max(1));
             cfg.max_deliveries = 0;
             cfg.max_steps = 20_000;
             let r = sched::run(bodies, &mut ch, &cfg);
